@@ -453,6 +453,96 @@ def gen_meta(rng, tier):
     return out
 
 
+def varuint(rng, length):
+    out = []
+    for i in range(length):
+        last = i == length - 1
+        v = rng.randrange(1, 128) if not last else rng.randrange(1, 8)
+        out.append(v | (0 if last else 0x80))
+    return out
+
+
+def gen_vp9hdr(rng, tier):
+    """All VP9 key-frame headers of the library's accepted form: profiles, var-uint lengths, render size on/off,
+    colour byte values, range byte, with/without trailing bytes."""
+    out = []
+    F = {'bytes': True, 'timing': False, 'tree': False, 'raw': True}
+    lens = [(1, 1), (2, 2), (5, 5), (1, 5), (5, 1), (3, 4)]
+    colours = range(256) if tier != 'quick' else list(range(0, 256, 5)) + [1, 2, 3, 0x0c, 0x0e, 0xf3, 0xff]
+    def frame_lines(frames):
+        for i in range(0, len(frames), 1):
+            cfg = base_cfg('vp9', 'none', w=640, h=480)
+            cfg['facets'] = F
+            calls = [{'op': 'wv', 'pts': fin(0), 'data': frames[i], 'key': True},
+                     {'op': 'wv', 'pts': fin(9000), 'data': video_frame(rng, 'vp9', False, 3), 'key': False},
+                     {'op': 'fin', 'how': 'in_place_stats'}]
+            out.append({'cfg': cfg, 'calls': calls})
+    frames = []
+    k = 0
+    for profile in range(4):
+        for c in colours:
+            for rbyte in (0, 1):
+                k += 1
+                wl, hl = lens[k % len(lens)]
+                head = [0x49, 0x83, 0x42, profile << 6, rng.randrange(0, 256)] + ([rng.randrange(0, 256)] if profile >= 2 else [])
+                size = varuint(rng, wl) + varuint(rng, hl)
+                tail = pad(rng, k % 4)
+                # (a) colour byte followed by a range byte (if its bits 2-3 are set this is the render-size form)
+                if c & 0x0c == 0:
+                    frames.append(head + size + [c, rbyte] + tail)
+                # (b) explicit render size, then colour + range
+                if k % 3 == 0:
+                    flag = [0x04, 0x08, 0x0c, 0xff][k % 4]
+                    frames.append(head + size + [flag] + varuint(rng, (k % 5) + 1) + varuint(rng, ((k // 5) % 5) + 1) + [c, rbyte] + tail)
+                # (c) colour byte is the last byte of the frame
+                if k % 4 == 0:
+                    frames.append(head + size + [c])
+                # (d) the frame ends right after the size (defaults)
+                if k % 16 == 0 and len(head + size) >= 6:
+                    frames.append(head + size)
+    frame_lines(frames)
+    return out
+
+
+def gen_nallist(rng, tier):
+    """Constructive Annex B grammar: lists of NAL units (parameter sets a/b, slices, SEI, AUD, empty) joined by
+    3/4-byte start codes, with leading garbage and trailing zeros, as the first key frame; a later key frame with
+    the *other* parameter sets follows (it must not change the stored configuration)."""
+    out = []
+    F = {'bytes': True, 'timing': False, 'tree': False, 'raw': True}
+    import itertools
+    units = {
+        'h264': {'SPSa': SPS_A, 'SPSb': SPS_B, 'PPSa': PPS_A, 'PPSb': PPS_B, 'IDR': [0x65, 0x88, 0x84], 'P': [0x41, 0x9a, 0x22],
+                 'SEI': [0x06, 0x05, 0x11], 'AUD': [0x09, 0x10], 'E': []},
+        'h265': {'VPSa': HVPS, 'VPSb': [0x40, 0x01, 0x0c, 0x02, 0x33], 'SPSa': HSPS, 'SPSb': [0x42, 0x01, 0x02, 0x21, 0x60] + HSPS[5:] + [0x99],
+                 'PPSa': HPPS, 'PPSb': [0x44, 0x01, 0xc1], 'IDR': [0x26, 0x01, 0xaf], 'P': [0x02, 0x01, 0xd0], 'SEI': [0x4e, 0x01, 0x05], 'E': []},
+    }
+    maxlen = 3 if tier == 'quick' else 4
+    for vc in ('h264', 'h265'):
+        names = list(units[vc].keys())
+        k = 0
+        for n in range(1, maxlen + 1):
+            for combo in itertools.product(names, repeat=n):
+                k += 1
+                if tier == 'quick' and n == 3 and k % 3:
+                    continue
+                pat = k % 2
+                lead = [[], [0xab, 0xcd], [0x00]][k % 3]
+                trail = [[], [0x00], [0x00, 0x00]][(k // 3) % 3]
+                d = list(lead)
+                for i, u in enumerate(combo):
+                    d += (SC4 if (i + pat) % 2 == 0 else SC3) + units[vc][u]
+                d += trail
+                cfg = base_cfg(vc, 'none')
+                cfg['facets'] = F
+                other = video_frame(rng, vc, True, 3) if vc == 'h264' else (SC4 + units[vc]['VPSb'] + SC3 + units[vc]['SPSb'] + SC4 + units[vc]['PPSb'] + SC3 + [0x26, 0x01, 0x55])
+                calls = [{'op': 'wv', 'pts': fin(0), 'data': d, 'key': True},
+                         {'op': 'wv', 'pts': fin(9000), 'data': other, 'key': True},
+                         {'op': 'fin', 'how': 'in_place_stats'}]
+                out.append({'cfg': cfg, 'calls': calls})
+    return out
+
+
 def generate(kind, n, seed, tier):
     rng = random.Random((seed * 1000003) ^ hash(kind) & 0xffff if False else seed * 1000003 + sum(map(ord, kind)))
     out = []
@@ -470,6 +560,10 @@ def generate(kind, n, seed, tier):
         return gen_fraginit(rng, tier)
     if kind == 'meta':
         return gen_meta(rng, tier)
+    if kind == 'vp9hdr':
+        return gen_vp9hdr(rng, tier)
+    if kind == 'nallist':
+        return gen_nallist(rng, tier)
     for _ in range(n):
         if kind == 'mux':
             out.append(gen_mux(rng, tier))
